@@ -12,7 +12,7 @@
    daggered, `sem_seq` composes a command list in time order. *)
 From Coq Require Import List Bool Arith ZArith Ring.
 Import ListNotations.
-From SFV Require Import C02.Alg C02.Model C02.Proofs C02.ProofsSeq C02.ProofsGate C02.ProofsDrv C02.ProofsRefute C02.Mesh C02.Inst.
+From SFV Require Import C02.Alg C02.Model C02.Proofs C02.ProofsSeq C02.ProofsGate C02.ProofsDrv C02.ProofsRefute C02.Mesh C02.Embed C02.Inst.
 
 Definition ring_of (K : Type) (O : Ops K) : Prop :=
   ring_theory (@k0 K O) (@k1 K O) (@kadd K O) (@kmul K O) (@ksub K O) (@kopp K O) eq.
@@ -141,18 +141,19 @@ Theorem C02_mesh_rectangular : forall (G : Type) (mul : G -> G -> G) (inv : G ->
 Proof. intros G mul inv e (A & B & C & D & E). exact (rectangular_assembly G mul inv e A B C D E). Qed.
 Print Assumptions C02_mesh_rectangular.
 
-(* ... for decompositions.triangular the emitted order does NOT act as V (known finding),
-       while "diagonal first, then the inverse factors" does. *)
-Theorem C02_mesh_triangular_refuted :
-  exists (V : Z) (ts : list Z), useq Z Z.add 0%Z (tri_emitted Z Z.add Z.opp V ts) <> V.
-Proof. exact triangular_emitted_refuted. Qed.
-Print Assumptions C02_mesh_triangular_refuted.
-
-Theorem C02_mesh_triangular_repaired : forall (G : Type) (mul : G -> G -> G) (inv : G -> G) (e : G),
+(* ... the same for decompositions.triangular as assembled by Interferometer._decompose (diagonal first,
+       then the inverse factors): acts as V, whatever factors the nulling chooses. *)
+Theorem C02_mesh_triangular : forall (G : Type) (mul : G -> G -> G) (inv : G -> G) (e : G),
   group_laws G mul inv e ->
-  forall (V : G) (ts : list G), useq G mul e (tri_repaired G mul inv V ts) = V.
-Proof. intros G mul inv e (A & B & C & D & E). exact (triangular_repaired_assembly G mul inv e A B C D E). Qed.
-Print Assumptions C02_mesh_triangular_repaired.
+  forall (V : G) (ts : list G), useq G mul e (tri_emitted G mul inv V ts) = V.
+Proof. intros G mul inv e (A & B & C & D & E). exact (triangular_assembly G mul inv e A B C D E). Qed.
+Print Assumptions C02_mesh_triangular.
+
+(* ... which was false for the assembly used before /repo commit 8725dba (T factors first, diagonal last). *)
+Theorem C02_mesh_triangular_old_refuted :
+  exists (V : Z) (ts : list Z), useq Z Z.add 0%Z (tri_emitted_old Z Z.add Z.opp V ts) <> V.
+Proof. exact triangular_old_refuted. Qed.
+Print Assumptions C02_mesh_triangular_old_refuted.
 
 (* ... _sun_compact_cmds' final reversal, and the emission order of _triangular_compact_cmds
        (factors f with conj f = f^-1 multiplied onto conj U until it is the identity). *)
@@ -170,6 +171,58 @@ Proof.
   intros G mul inv e (A & B & C & D & E) conj H1 H2. exact (compact_right_assembly G mul inv e A B C D E conj H1 H2).
 Qed.
 Print Assumptions C02_mesh_compact_right.
+
+(* ... _rectangular_compact_init multiplies conj(U) on the right (even diagonals) and on the left (odd
+       diagonals) by factors with conj f = f^-1 until it is the identity: in time order the interferometer is
+       the right factors in the order found, then the left factors last-found first. *)
+Theorem C02_mesh_compact_two_sided : forall (G : Type) (mul : G -> G -> G) (inv : G -> G) (e : G),
+  group_laws G mul inv e ->
+  forall conj : G -> G, (forall a b, conj (mul a b) = mul (conj a) (conj b)) -> (forall a, conj (conj a) = a) ->
+  forall (U : G) (Ls Rs : list G), Forall (fun f => conj f = inv f) Ls -> Forall (fun f => conj f = inv f) Rs ->
+  mul (mul (useq G mul e Ls) (conj U)) (lprod G mul e Rs) = e ->
+  useq G mul e (Rs ++ rev Ls) = U.
+Proof.
+  intros G mul inv e (A & B & C & D & E) conj H1 H2. exact (compact_two_sided_assembly G mul inv e A B C D E conj H1 H2).
+Qed.
+Print Assumptions C02_mesh_compact_two_sided.
+
+(* ... and the algebraic step of _absorb_zeta: a residual phase on both modes next to an sMZI is absorbed by
+       shifting both of its internal phases, on either side.  (Which zeta is routed to which sMZI / edge
+       shifter, and the layer-by-layer emission order of _rectangular_compact_cmds, are NOT proved: search only.) *)
+Theorem C02_sMZ_absorbs_common_phase : forall (K : Type) (O : Ops K), ring_of K O ->
+  forall a b z : ang K,
+  let both := acomp K (aswap K (doc K (Rgate K z))) (doc K (Rgate K z)) in
+  doc K (sMZgate K (a_add K a z) (a_add K b z)) = acomp K both (doc K (sMZgate K a b))
+  /\ doc K (sMZgate K (a_add K a z) (a_add K b z)) = acomp K (doc K (sMZgate K a b)) both.
+Proof. intros K O R. exact (sMZ_common_phase K R). Qed.
+Print Assumptions C02_sMZ_absorbs_common_phase.
+
+(* 10. n-mode registers: a command's action embedded at ANY two distinct wire positions (k, l) of an n-mode
+       register (either order, any n) commutes with decomposition and with Compiler.decompose; a gate touches
+       only the coordinates of its targets.  Register states are functions nat -> K (x_i at i, p_i at n+i),
+       equality is pointwise. *)
+Theorem C02_embedded_decomposition : forall (K : Type) (O : Ops K), ring_of K O -> consts_ok K O ->
+  forall (n k l : nat) (c : cmd K) (L : list (cmd K)), targets_ok n k l -> cmd_ok K c ->
+  decompose_cmd K c = Some L ->
+  forall (r : reg K) (i : nat), nrun K n k l L r i = embed K n k l (doc_cmd K c) r i.
+Proof. intros K O R [H1 H2]. exact (decompose_embedded K R H1 H2). Qed.
+Print Assumptions C02_embedded_decomposition.
+
+Theorem C02_embedded_compile : forall (K : Type) (O : Ops K), ring_of K O -> consts_ok K O ->
+  forall (n k l fuel : nat) (tb : table) (seq out : list (cmd K)), targets_ok n k l -> Forall (cmd_ok K) seq ->
+  compile K fuel tb seq = Ok K out ->
+  forall (r : reg K) (i : nat), nrun K n k l out r i = nrun K n k l seq r i.
+Proof. intros K O R [H1 H2]. exact (compile_embedded K R H1 H2). Qed.
+Print Assumptions C02_embedded_compile.
+
+Theorem C02_embedded_order_and_locality : forall (K : Type) (O : Ops K), ring_of K O ->
+  forall (n k l : nat) (a : aff K) (r : reg K) (i : nat),
+  (targets_ok n k l -> embed K n k l (aswap K a) r i = embed K n l k a r i)
+  /\ (i <> k -> i <> l -> i <> n + k -> i <> n + l -> embed K n k l a r i = r i).
+Proof.
+  intros K O R n k l a r i. split; [apply (embed_swap K R) | apply (embed_spectator K)].
+Qed.
+Print Assumptions C02_embedded_order_and_locality.
 
 (* ---- the hypotheses are satisfiable: Q(sqrt 2), axiom-free ---- *)
 Example C02_instance : ring_of Q2 Q2ops /\ consts_ok Q2 Q2ops /\ @k1 Q2 Q2ops <> @k0 Q2 Q2ops.
